@@ -6,7 +6,7 @@
    step and lists the directory with the same name filter (correspondence), they are not part
    of the model. *)
 From Coq Require Import NArith List Bool.
-Require Import LF.Gen.ConstsGen LF.Model.PageDB LF.Proofs.CaptureProofs LF.Proofs.ChainProofs.
+Require Import LF.Gen.ConstsGen LF.Model.PageDB LF.Proofs.CaptureProofs LF.Proofs.ChainProofs LF.Proofs.HistoryProofs LF.Proofs.SqlCheckpointProofs LF.Proofs.ComposeProofs LF.Proofs.ChainHistoryProofs.
 Import ListNotations.
 Local Open Scope N_scope.
 
@@ -46,3 +46,41 @@ Example C09_nonvacuous :
                           OWrite 1 (p 1 3); OCommitJournal 1; ORetention [true; true; true] false 0; ODrop] with
   | Some s => map l_max (ltxdir s) = [3; 4] | None => False end.
 Proof. vm_compute. split; [discriminate|reflexivity]. Qed.
+
+(* ---- over the histories of C04_history ----
+   [run_gsteps] is the history language of Props/C04.v: rollback-journal transactions with spills, rollbacks and failed
+   finalisations, the switch to WAL mode, WAL commits, LiteFS's and SQLite's checkpoints, the way back, restarts, files
+   from the stream and forwarded files (applied or refused), drops, imports.  After EVERY such history from an empty node
+   the kept files link and the last one ends at the node's position - with no premise at all on the steps. *)
+Theorem C09_history_chain : forall lock gs s' v',
+  run_gsteps (init lock) (fun _ => 0) gs = Some (s', v') -> Chain s'.
+Proof. exact g_history_chain. Qed.
+
+(* ... and with retention sweeps (any ages, with or without a backup service, any high-water mark) at any point between
+   two steps, provided each sweep sees ages that do not decrease with the transaction id ([ok_op]: what it may remove
+   is a prefix of the directory) *)
+Theorem C09_history_chain_with_sweeps : forall lock cs s',
+  ok_csteps (init lock) cs -> run_csteps (init lock) cs = Some s' -> Chain s'.
+Proof. exact c_history_chain. Qed.
+
+(* one step of such a history from ANY state that has a chain (a restored, snapshotted or restarted node) *)
+Theorem C09_history_step : forall s c s', Chain s -> cok s c -> crun s c = Some s' -> Chain s'.
+Proof. exact c_chain_step. Qed.
+
+(* a file that is not applied is either refused - nothing changes, the log included - or fatal; never a failure that
+   leaves the file in the log *)
+Theorem C09_refused_file_changes_nothing : forall s f ok s',
+  (op_receive s f = (Failed, s') -> s' = s) /\ (op_forward s f ok = (Failed, s') -> s' = s).
+Proof. intros s f ok s'. split; [exact (receive_failed_same s f s')|exact (forward_failed_same s f ok s')]. Qed.
+
+(* Non-vacuity: two rollback-journal transactions; a sweep that removes the first file; the switch to WAL mode; a WAL
+   commit; a sweep under a backup service that has confirmed up to 4; a restart; a stray file from the stream (refused); a
+   drop; a sweep (the tombstone's file, the newest, stays); an import.  The side condition of every sweep holds and the
+   log ends as [5-5; 6-6] at position 6. *)
+Example C09_history_nonvacuous :
+  ok_csteps (init 2097153) chain_example /\
+  match run_csteps (init 2097153) chain_example with
+  | Some s => (txid s, map l_min (ltxdir s), map l_max (ltxdir s)) = (6, [5; 6], [5; 6])
+  | None => False
+  end.
+Proof. exact chain_history_example. Qed.
